@@ -250,6 +250,8 @@ class Daemon(object):
             # expose internal port number as NAT port as well. (don't use port because it could be 0 and will be chosen by the OS)
             natport_for_loc = int(self.locationStr.rsplit(":", 1)[1])     # (an ipv6 location has colons in its host part too)
         # The NAT-location (str of the form ``nathost:natportnumber``) on which the Daemon is exposed for use with NAT-routing
+        if nathost and ":" in nathost and not nathost.startswith("["):
+            nathost = "[%s]" % nathost    # an ipv6 address is written in brackets in a location
         self.natLocationStr = "%s:%d" % (nathost, natport_for_loc) if nathost else None
         if self.natLocationStr:
             log.debug("NAT address is %s", self.natLocationStr)
